@@ -30,6 +30,7 @@ type mutant struct {
 	ID         string `json:"id"`
 	Kind       string `json:"kind"` // "breaking" or "benign"
 	Edits      []edit `json:"edits"`
+	Patch      string `json:"patch,omitempty"` // instead of edits: a unified diff (path relative to the verif dir)
 	ExpectRule string `json:"expect_rule,omitempty"`
 	Note       string `json:"note,omitempty"`
 }
@@ -163,7 +164,26 @@ func main() {
 				fmt.Printf("%s: SELFTEST %s mutant %s: %s %s\n", *prop, m.Kind, m.ID, m.Status, m.Detail)
 			}
 		}
-		fmt.Printf("%s: mutant catalogue: %d/%d breaking edits reported, %d/%d benign edits silent, %d inapplicable\n", *prop, killed, breaking, silent, benign, inappl)
+		cs, csk, cb, cbs := 0, 0, 0, 0
+		for _, m := range results {
+			if m.Status == "inapplicable" {
+				continue
+			}
+			switch {
+			case strings.HasPrefix(m.ID, "seeded/"):
+				cs++
+				if m.Status == "killed" {
+					csk++
+				}
+			case strings.HasPrefix(m.ID, "refactoring/"):
+				cb++
+				if m.Status == "silent" {
+					cbs++
+				}
+			}
+		}
+		extra["corpus_seeded"], extra["corpus_seeded_reported"], extra["corpus_refactorings"], extra["corpus_refactorings_silent"] = cs, csk, cb, cbs
+		fmt.Printf("%s: mutant catalogue: %d/%d breaking edits reported, %d/%d benign edits silent, %d inapplicable (of these, independent corpora: %d/%d seeded changes reported, %d/%d refactorings silent)\n", *prop, killed, breaking, silent, benign, inappl, csk, cs, cbs, cb)
 	}
 
 	ev := rep.Evidence(out, *tier, seed, time.Since(t0).Seconds(), check.Explanation, check.Assumptions, extra)
@@ -258,6 +278,22 @@ func runMutants(prop, repo, verif string) []mutantResult {
 	if err := json.Unmarshal(data, &ms); err != nil {
 		return []mutantResult{{ID: "catalogue", Status: "error", Detail: err.Error()}}
 	}
+	// the independently produced corpora: the seeded breaking changes of this property must be
+	// reported by it, every behaviour-preserving refactoring must leave it silent
+	if dirs, _ := filepath.Glob(filepath.Join(verif, "seeded", prop+"-*", "patch.diff")); len(dirs) > 0 {
+		sort.Strings(dirs)
+		for _, d := range dirs {
+			rel, _ := filepath.Rel(verif, d)
+			ms = append(ms, mutant{ID: "seeded/" + filepath.Base(filepath.Dir(d)), Kind: "breaking", Patch: rel, Note: "independently seeded breaking change (see its README.md)"})
+		}
+	}
+	if dirs, _ := filepath.Glob(filepath.Join(verif, "benign", "*", "patch.diff")); len(dirs) > 0 {
+		sort.Strings(dirs)
+		for _, d := range dirs {
+			rel, _ := filepath.Rel(verif, d)
+			ms = append(ms, mutant{ID: "refactoring/" + filepath.Base(filepath.Dir(d)), Kind: "benign", Patch: rel, Note: "independently produced behaviour-preserving refactoring"})
+		}
+	}
 	// violations of the unmutated tree (without known-finding suppression), to
 	// tell a mutant's own report from a pre-existing one
 	exe, _ := os.Executable()
@@ -280,6 +316,15 @@ func runMutants(prop, repo, verif string) []mutantResult {
 			defer func() { <-sem }()
 			res := mutantResult{ID: m.ID, Kind: m.Kind, ExpectRule: m.ExpectRule, Note: m.Note}
 			overlay := map[string]string{}
+			if m.Patch != "" {
+				ov, why := overlayFromPatch(repo, filepath.Join(verif, m.Patch), filepath.Join(tmpdir, "p"+fmt.Sprint(i)))
+				if ov == nil {
+					res.Status, res.Detail = "inapplicable", why
+					results[i] = res
+					return
+				}
+				overlay = ov
+			}
 			for _, e := range m.Edits {
 				abs := filepath.Join(repo, e.File)
 				src, ok := overlay[abs]
@@ -299,13 +344,16 @@ func runMutants(prop, repo, verif string) []mutantResult {
 				}
 				overlay[abs] = strings.Replace(src, e.Find, e.Replace, 1)
 			}
-			of := filepath.Join(tmpdir, m.ID+".json")
+			of := filepath.Join(tmpdir, strings.ReplaceAll(m.ID, "/", "_")+".json")
 			b, _ := json.Marshal(overlay)
 			_ = os.WriteFile(of, b, 0o644)
 			out := childRun(exe, prop, repo, of)
 			if out.Error != "" {
 				if strings.Contains(out.Error, "does not type-check") {
 					res.Status = "does-not-compile"
+					if m.Patch != "" {
+						res.Status = "inapplicable"
+					}
 				} else {
 					res.Status = "error"
 				}
@@ -353,6 +401,57 @@ func runMutants(prop, repo, verif string) []mutantResult {
 	}
 	wg.Wait()
 	return results
+}
+
+// overlayFromPatch applies a unified diff to scratch copies of the files it touches (in dir, which is
+// removed by the caller) and returns the patched contents keyed by their path in the repository.
+func overlayFromPatch(repo, patch, dir string) (map[string]string, string) {
+	data, err := os.ReadFile(patch)
+	if err != nil {
+		return nil, "patch missing"
+	}
+	files := map[string]bool{}
+	for _, line := range strings.Split(string(data), "\n") {
+		for _, pre := range []string{"+++ b/", "--- a/"} {
+			if strings.HasPrefix(line, pre) {
+				files[strings.TrimSpace(strings.TrimPrefix(line, pre))] = true
+			}
+		}
+	}
+	if len(files) == 0 {
+		return nil, "no files in patch"
+	}
+	for f := range files {
+		b, err := os.ReadFile(filepath.Join(repo, f))
+		if err != nil {
+			continue // created by the patch
+		}
+		dst := filepath.Join(dir, f)
+		if err := os.MkdirAll(filepath.Dir(dst), 0o755); err != nil {
+			return nil, err.Error()
+		}
+		if err := os.WriteFile(dst, b, 0o644); err != nil {
+			return nil, err.Error()
+		}
+	}
+	if err := os.MkdirAll(dir, 0o755); err != nil {
+		return nil, err.Error()
+	}
+	cmd := exec.Command("git", "apply", "--whitespace=nowarn", patch)
+	cmd.Dir = dir
+	cmd.Env = append(os.Environ(), "GIT_CEILING_DIRECTORIES="+filepath.Dir(dir), "GIT_DIR=/nonexistent")
+	if out, err := cmd.CombinedOutput(); err != nil {
+		return nil, "patch does not apply to the current tree: " + strings.TrimSpace(string(out))
+	}
+	ov := map[string]string{}
+	for f := range files {
+		b, err := os.ReadFile(filepath.Join(dir, f))
+		if err != nil {
+			continue // deleted by the patch: not supported, leave the original
+		}
+		ov[filepath.Join(repo, f)] = string(b)
+	}
+	return ov, ""
 }
 
 func childRun(exe, prop, repo, overlayFile string) childOut {
